@@ -500,13 +500,15 @@ func withoutSubst(f func()) {
 // one: which conditions are atoms, which instructions are events, and which
 // module helpers are entered (those containing an atom or event, transitively).
 type pathSpec struct {
-	name      string
-	cond      func(iff *ssa.If) (kind, tv, fv string)
-	events    func(in ssa.Instruction) []pathItem
-	keep      func(fn *ssa.Function) bool // never enter fn (its calls are events of the spec)
-	condAux   func(iff *ssa.If) ssa.Value // optional: a value attached to the atom (resolved on the path)
-	relMemo   map[*ssa.Function]bool
-	inlineAll bool // enter every module helper (small functions whose atoms only show under the substitution)
+	name             string
+	cond             func(iff *ssa.If) (kind, tv, fv string)
+	events           func(in ssa.Instruction) []pathItem
+	keep             func(fn *ssa.Function) bool // never enter fn (its calls are events of the spec)
+	condAux          func(iff *ssa.If) ssa.Value // optional: a value attached to the atom (resolved on the path)
+	relMemo          map[*ssa.Function]bool
+	onReturn         func(rt *ssa.Return) string // optional: rendered into the end of a returning path
+	symbolicLoopPhis bool                        // do not bind the phis of loop headers (they stay symbolic: the iteration variable)
+	inlineAll        bool                        // enter every module helper (small functions whose atoms only show under the substitution)
 }
 
 func (sp *pathSpec) relevant(P *Prog, fn *ssa.Function) bool {
@@ -763,13 +765,25 @@ func (P *Prog) relevantFn(fn *ssa.Function) bool {
 
 // inlinable: the call is followed into its callee.
 func (pe *pathEnum) inlinable(ci *callInfo, stack []inlFrame) *ssa.Function {
-	if ci == nil || ci.static == nil {
+	if ci == nil {
 		return nil
 	}
 	if _, isCall := ci.instr.(*ssa.Call); !isCall {
 		return nil
 	}
 	fn := ci.static
+	if fn == nil && ci.dynamic {
+		// a function value that is known on this path: a closure or function passed to the helper we are in
+		switch x := cv(ci.instr.Common().Value).(type) {
+		case *ssa.Function:
+			fn = x
+		case *ssa.MakeClosure:
+			fn, _ = x.Fn.(*ssa.Function)
+		}
+	}
+	if fn == nil {
+		return nil
+	}
 	if fn.Blocks == nil || !inModule(funcPkgPath(fn)) || len(stack) >= maxInlineDepth {
 		return nil
 	}
@@ -838,7 +852,7 @@ func (pe *pathEnum) enter(stack []inlFrame, pred, b *ssa.BasicBlock, items []pat
 		ns[len(ns)-1].vh = nvh
 		stack = ns
 	}
-	if pred != nil {
+	if pred != nil && !(pe.spec != nil && pe.spec.symbolicLoopPhis && pe.headersOf(top.fn)[b]) {
 		pi := -1
 		for i, p := range b.Preds {
 			if p == pred {
@@ -900,7 +914,11 @@ func (pe *pathEnum) walk(stack []inlFrame, b *ssa.BasicBlock, from int, items []
 	switch t := last.(type) {
 	case *ssa.Return:
 		if len(stack) == 1 {
-			pe.endPath(items, "RETURN")
+			end := "RETURN"
+			if pe.spec != nil && pe.spec.onReturn != nil {
+				end += " " + pe.spec.onReturn(t)
+			}
+			pe.endPath(items, end)
 			return
 		}
 		fr := stack[len(stack)-1]
